@@ -21,9 +21,9 @@ def build(repo, tier):
         if w is not None:
             viol.append({'name': 'C18/bounded/byte-identical output across hash seeds and serialisation orders', 'status': 'refuted-bounded', 'backend': 'bounded run on the real code', 'model': None,
                          'detail': w.get('failed_clause', ''), 'confirmed': True, 'replay': w})
-        return [{'bounded': {'kind': 'Propositional, SmallTheory, Substitution and three generated modules serialised (binary and pretty, optimize off and on) in fresh processes under several '
+        return [{'bounded': {'kind': 'Propositional, SmallTheory, Substitution, three generated modules and a module with a memoisation score tie, serialised (binary and pretty, optimize off and on) in fresh processes under several '
                                      'PYTHONHASHSEED values and in both orders within one process; Metamath sample databases converted under the same seeds: all digests identical', 'programs': n,
-                             'bound': 'hash seeds 0,1,7 (quick) / 0,1,2,7,13,42 (thorough)'}, 'violations': viol}]
+                             'bound': 'hash seeds 0,1,2,3,7 (quick) / 0..11,13,42 (thorough)'}, 'violations': viol}]
     spec.extra_checks.append(standin)
 
     def replayer(name, model, root):
